@@ -120,7 +120,7 @@ PROPS["C19"] = dict(
     functions=["main::load_rom", "system::read_header", "cart::Header::{valid_checksum,get_rom_bank_count,get_rom_size_bytes,get_ram_size_bytes,create_cart_state}",
                "emulator::Core::from_rom_file", "mem::MemoryAreas::with_rom_file"],
     bounds={"quick": "all 2^640 header contents; all file lengths 0..9 MiB; the real load_rom/read_header run against a ghost regular file of that length "
-                     "(seek/read/read_exact stubbed to regular-file semantics); accept/reject decision, buffer sizes, and the mmap contract (mapping never extends past EOF)",
+                     "(seek/read/read_exact stubbed to regular-file semantics); accept/reject decision, buffer sizes, and the mmap contract (mapping never extends past EOF); the real read_header on files cut at 0, 0x100, 0x101, 0x14E, 0x14F, 0x150 and 0x8000 bytes",
             "thorough": "plus the real system::read_header (seek + read_exact over the ghost file) for all file lengths: Ok exactly when the 80 header bytes exist, and then equal to them (about 8 min, > 20 GB)"},
     outside=["short-file handling inside read_header in the quick tier (thorough only; the load decision uses a model of read_header there)", "kernel mmap/file semantics beyond the stated contract", "UTF-8 validity of the title (get_title is cut: from_utf8_unchecked)", "I/O errors other than end-of-file"],
     stubs=CTOR_STUBS[1:] + ["system::open_rom_file -> Ok(file) (existence is not the subject)", "File::{seek,read,read_exact} -> regular file of ghost length holding the symbolic header at 0x100",
